@@ -86,7 +86,7 @@ SubnetOf(p) == lim.sub[p]
 SubnetOn == lim.maxSubnet > 0
 
 Stages == {"new", "arrived", "gotpeer", "gotsub", "spawned", "handling", "exited", "ending", "relsub", "final"}
-Outcomes == {"none", "answered", "lost", "rejected", "dropsub", "dropshut", "droppeer"}
+Outcomes == {"none", "answered", "maybe", "lost", "rejected", "dropsub", "dropshut", "droppeer"}
 FailOutcomes == {"lost", "rejected", "dropsub", "dropshut", "droppeer"}
 
 Arrived(p)  == {r \in RpcIds : st[p][r] = "arrived"}
@@ -216,11 +216,9 @@ Handle(p, r) ==
     /\ G_Handle(p, r)
     /\ st' = [st EXCEPT ![p][r] = "exited"]
     \* Run's teardown closes the peers one after the other: between the listener's close and the end of the
-    \* teardown this peer's transport may or may not be closed already
-    /\ \E o \in {"answered", "lost"} :
-         /\ (o = "answered") => ~(peersClosed \/ gone[p] \/ ~loopOn[p])
-         /\ (o = "lost") => (lclosed \/ gone[p] \/ ~loopOn[p])
-         /\ out' = [out EXCEPT ![p][r] = o]
+    \* teardown this peer's transport may or may not be closed already ("maybe": answered or lost)
+    /\ out' = [out EXCEPT ![p][r] = IF peersClosed \/ gone[p] \/ ~loopOn[p] THEN "lost"
+                                     ELSE IF lclosed THEN "maybe" ELSE "answered"]
     /\ act' = Lbl("Handle", p, r)
     /\ UNCHANGED <<lim, sem, sub, loopOn, gone, tgLive, stop, lclosed, peersClosed, dead, runLive, conn, th>>
 
@@ -477,7 +475,7 @@ BackPressureNotDrop ==
             \/ out'[p][r] = "dropsub" /\ SubnetOn /\ sub[SubnetOf(p)] >= lim.maxSubnet
             \/ out'[p][r] = "rejected" /\ stop # "no"
             \/ out'[p][r] = "dropshut" /\ ~loopOn[p]
-            \/ out'[p][r] = "lost" /\ (lclosed \/ gone[p] \/ ~loopOn[p])]_vars
+            \/ out'[p][r] = "lost" /\ (peersClosed \/ gone[p] \/ ~loopOn[p])]_vars
 LoopExitsOnlyOnShutdown == \A p \in Peers : ~loopOn[p] => (stop # "no" \/ lclosed \/ gone[p])
 
 \* inbound / outbound peer caps
